@@ -514,6 +514,7 @@ class LoopMixin:
         field_writes: dict[tuple, list] = {}  # (lid, key) -> [(cond, new array)]
         carried_writes: dict[str, list] = {}
         obj_writes: dict[tuple, list] = {}
+        dict_writes: dict[int, list] = {}  # did -> [(cond, 'set'|'del', key term, value term)]
         family = self._family(seg.lid) if seg.lid >= 0 else set()
         for r in normals:
             c = gen(r["cond"])
@@ -586,7 +587,18 @@ class LoopMixin:
                 if did in st.dicts and rec.meta.get("mut"):
                     if rec.backing is not None and rec.backing[0] in family:
                         continue  # written through to the element arrays (handled as field writes)
-                    raise Unsupported("dict mutation inside a summarised loop")
+                    kinds = set()
+                    for m in rec.meta["mut"]:
+                        if isinstance(m, str):
+                            if m in ("update", "clear", "loop"):
+                                raise Unsupported(f"dict.{m} inside a summarised loop")
+                            continue  # 'pop' / 'set' markers: the dict_del / dict_set that follows is recorded as a tuple
+                        kt = self.ops.key_term(self._import_value(m[1], st2, g))
+                        vt = self.ops.to_val(self._import_value(m[2], st2, g)) if m[0] == "set" else None
+                        kinds.add(m[0])
+                        dict_writes.setdefault(did, []).append((c, m[0], kt, vt))
+                    if len(kinds) > 1:
+                        raise Unsupported("a summarised loop iteration both sets and deletes keys of one dict")
             for oid, rec in st2.objs.items():
                 if oid in st.objs and rec.meta.get("writes"):
                     for name in rec.meta["writes"]:
@@ -635,8 +647,44 @@ class LoopMixin:
                 rec.segs = cur + new
                 rec.meta["unordered"] = True
             rec.write_log.append(("$segs", None))  # seen by an enclosing summarised loop: nested accumulation
-        if seg.outer and (field_writes or carried_writes or obj_writes):
+        if seg.outer and (field_writes or carried_writes or obj_writes or dict_writes):
             raise Unsupported("state update inside a loop over a nested comprehension")
+        # ---- apply: writes to dicts of the outer state
+        for did, lst in dict_writes.items():
+            d = SDict(did)
+            self.ops.dict_symbolize(d)
+            rec = st.dicts[did]
+            if rec.backing is not None:
+                raise Unsupported("summarised loop writes a dict held by a list element other than the current one")
+            kq = z3.Int(fresh_name("dk"))
+            if all(z3.eq(z3.simplify(kt), g) for _c, _k, kt, _v in lst):
+                # the key written is the loop variable itself (iteration over key codes): exact closed form
+                rng = z3.substitute(in_range, (g, kq))
+                has, vals = z3.Select(rec.has, kq), z3.Select(rec.vals, kq)
+                for c, kind, _kt, vt in reversed(lst):
+                    ck = z3.And(rng, z3.substitute(c, (g, kq)))
+                    has = z3.If(ck, z3.BoolVal(kind == "set"), has)
+                    if kind == "set":
+                        vals = z3.If(ck, z3.substitute(vt, (g, kq)), vals)
+                rec.has, rec.vals = z3.Lambda([kq], has), z3.Lambda([kq], vals)
+            else:
+                # general keys: the dict after the loop is a fresh one constrained by (i) the frame -- a key no iteration
+                # writes keeps presence and value -- and (ii) presence (absence) of every key some iteration sets (deletes);
+                # the value left under a key several iterations may set is not represented (over-approximation)
+                kinds = {k for _c, k, _kt, _v in lst}
+                if len(kinds) > 1:
+                    raise Unsupported("a summarised loop both sets and deletes keys of one dict")
+                has2 = z3.Array(fresh_name("has_after_loop"), z3.IntSort(), z3.BoolSort())
+                vals2 = z3.Array(fresh_name("vals_after_loop"), z3.IntSort(), rec.vals.sort().range())
+                touched = z3.Exists([g], z3.And(in_range, z3.Or(*[z3.And(c, kt == kq) for c, _k, kt, _v in lst])))
+                st.assume(z3.ForAll([kq], z3.Implies(z3.Not(touched), z3.And(z3.Select(has2, kq) == z3.Select(rec.has, kq),
+                                                                               z3.Select(vals2, kq) == z3.Select(rec.vals, kq)))))
+                for c, kind, kt, _v in lst:
+                    hk = z3.Select(has2, kt)
+                    st.assume(z3.ForAll([g], z3.Implies(z3.And(in_range, c), hk if kind == "set" else z3.Not(hk))))
+                rec.has, rec.vals = has2, vals2
+            rec.meta.pop("nonempty", None)
+            rec.meta.setdefault("mut", []).append("loop")
         # ---- apply: element fields (lambda update at the level of g)
         for (lid, key), lst in field_writes.items():
             rec = st.lists[lid]
